@@ -710,3 +710,6 @@ func (f *Flow) EveryPathPasses(n ast.Node, pred func(ast.Node) bool) bool {
 	}
 	return true
 }
+
+// DeriveCond exposes deriveCond: the leaves implied by e having value val.
+func DeriveCond(e ast.Expr, val bool, out map[ast.Expr]bool) { deriveCond(e, val, out) }
